@@ -89,6 +89,15 @@ func (i *interpreter) walkShared(v value, name string, depth int) {
 	}
 }
 
+// publish: a value stored into shared memory makes everything reachable from
+// it shared as well (a VM that parks one of its objects in a package-level
+// cache has published it to every other VM).
+func (i *interpreter) publish(addr *value) {
+	if name, ok := i.shared[addr]; ok {
+		i.walkShared(*addr, name, 1)
+	}
+}
+
 func (i *interpreter) noteSharedWrite(fr *frame, addr *value) {
 	name, ok := i.shared[addr]
 	if !ok || i.px.locksHeld > 0 {
